@@ -416,7 +416,7 @@ func (w *world) step(code, a, b, d int64) int64 {
 }
 
 func run(sel int, in []int64) []int64 {
-	if sel < 1 || sel > 4 {
+	if sel < 1 || sel > 5 {
 		panic("unknown selector")
 	}
 	r := &rd{t: in}
@@ -471,6 +471,10 @@ func laws(sel int, in, got []int64, law func(lsel int, lin []int64, sig string))
 	lin := append(append([]int64{}, in...), got...)
 	for l := 101; l <= 110; l++ {
 		law(l, lin, "")
+	}
+	if sel == 5 { // lagging random streams: "a Sync never opens or closes" at full strength
+		law(112, lin, "")       // every failure that is NOT a Sync computed from a stale lister object
+		law(122, lin, sigRaceA) // a Sync computed from a stale lister object overwrote the server's state
 	}
 	if sel == 4 { // quiescent end states: the full-strength laws about caught-up states
 		law(141, lin, "") // a stuck marked child that is NOT of the known class
@@ -800,6 +804,17 @@ func genQuiescent(r *vh.Rng, i int) (in []int64, desc map[string]any) {
 				all()
 			}
 		}
+	case 5: // the REPAIRED race C: parent closed and re-opened before the lister shows the child's marker;
+		// since b628b4b the delivery of the marker re-syncs the child: no quiescent failure is expected
+		shape = "race-C/repaired"
+		qs = []q{{1, 0, 1, 0}, {2, 1, 1, 0}, {3, 2, 1, 0}}
+		C(2, 2)
+		P(0)
+		L(2)
+		C(2, 1)
+		P(0)
+		P(0)
+		L(2)
 	case 0: // parent closed and re-opened at once, FIFO, the child's lister entry late
 		shape = "close-reopen-fifo"
 		qs = []q{{1, 0, 1, 0}, {2, 1, 1, 0}, {3, 2, 1, 0}}
@@ -1125,7 +1140,11 @@ func gen(rng *vh.Rng, n int, emit func(id string, sel int, in []int64, kind stri
 		}
 		in = append(in, int64(ne))
 		in = append(in, evs...)
-		emit(fmt.Sprintf("hist-%d", i), 1, in, stream, nq >= 2 && ncmd >= 1 && nproc >= 2,
+		hsel := 1
+		if stream == "lagged" || stream == "stale-init" || stream == "hier-lagged" {
+			hsel = 5
+		}
+		emit(fmt.Sprintf("hist-%d", i), hsel, in, stream, nq >= 2 && ncmd >= 1 && nproc >= 2,
 			map[string]any{"queues": nq, "events": ne, "stream": stream})
 	}
 }
